@@ -1,20 +1,24 @@
 /-
   C12 — untrusted input never causes undefined behaviour, abort or unbounded growth.
-  Property theorems only (helper lemmas live in LtVerif/Proofs/Arith.lean).
+  Property theorems only (helper lemmas live in LtVerif/Proofs/Arith.lean, Proofs/ArithRange.lean).
 
-  What is proved here is the *size / overflow arithmetic*: over the machine-arithmetic model
-  (Model/Arith.lean: explicit C widths, every intermediate value and array index checked, result
-  `ub …` where the C computation would leave its type or its array) no input makes a modelled
-  routine produce `ub`, and the results are the mathematical values.  Absence of UB in the pointer
-  code itself is explored under ASan/UBSan by the correspondence check, not proved (claimed partial).
-
-  Planned in DESIGN §6 but not proved here: `c12_hpack_output_bound` (HPACK decoder output ≤ 64 KiB;
-  the decoder is modelled for C07) and `c12_bounded_state` (needs the connection automata of C05/C10).
+  PROVED here, over the machine-arithmetic models (Model/Arith.lean, Model/ArithRange.lean: explicit C
+  widths, every intermediate value and array index checked, result `ub …` where the C computation would
+  leave its type or its array): for the routines listed below, *signed overflow, unintended unsigned wrap,
+  32-bit truncation and out-of-range array index* cannot occur, for every input and — for the two chunked
+  decoders — every history of reads; plus the bounds on the accumulators that carry partial input across
+  reads.  Routines: li_restricted_strtoint64, h1_chunked (whole calls), http_chunk_decode_append_data
+  (whole calls), http_header_parse_hoff + its four callers' limit tests, buffer.c growth, ck_realloc_u32
+  (conditional), the pad/priority/CONTINUATION length arithmetic of h2.c, http_range.c.
+  NOT proved (sanitizer exploration by the correspondence check only): out-of-bounds / use-after-free /
+  null dereference in the pointer code itself, every other routine, descriptors, liveness after hostile
+  input.  Planned in DESIGN §6 and not proved: `c12_hpack_output_bound`, `c12_bounded_state`.
 -/
 import LtVerif.Model.Arith
 import LtVerif.Model.ArithRange
 import LtVerif.Model.H1Parse
 import LtVerif.Proofs.Arith
+import LtVerif.Proofs.ArithRange
 namespace LtVerif.C12
 open LtVerif LtVerif.B LtVerif.Arith
 
@@ -87,8 +91,8 @@ example : strtoI64 (ofString "12a") = .ok (12, 2) := by decide
     accumulated value is non-negative, equals the value of the hex digits, and `te_chunked + 2`
     (the CRLF after the chunk data) still fits off_t.  Holds for both decoders' guards. -/
 theorem c12_chunk_size_guard (line : Bytes) :
-    (∀ w, ckHex Extracted.ckGuardH1 line 0 0 ≠ .ub w) ∧ (∀ w, ckHex Extracted.ckGuardGw line 0 0 ≠ .ub w) ∧
-    (∀ g, g = Extracted.ckGuardH1 ∨ g = Extracted.ckGuardGw → ∀ te k r, ckHex g line 0 0 = .ok te k r →
+    (∀ w, Arith.ckHex Extracted.ckGuardH1 line 0 0 ≠ .ub w) ∧ (∀ w, Arith.ckHex Extracted.ckGuardGw line 0 0 ≠ .ub w) ∧
+    (∀ g, g = Extracted.ckGuardH1 ∨ g = Extracted.ckGuardGw → ∀ te k r, Arith.ckHex g line 0 0 = .ok te k r →
       0 ≤ te ∧ te + 2 ≤ i64Max ∧ te = (hexValue line 0 : Int)) := by
   have a := ckHex_spec Extracted.ckGuardH1 ckGuardH1_le line 0 0 (by unfold ckTeMax; omega)
   have b := ckHex_spec Extracted.ckGuardGw ckGuardGw_le line 0 0 (by unfold ckTeMax; omega)
@@ -101,18 +105,79 @@ theorem c12_chunk_size_guard (line : Bytes) :
   · obtain ⟨n, h1, h2, h3, _⟩ := b.2 te k r h
     unfold ckTeMax at h2; subst h1; subst h3; omega
 
-/-- One call of h1_chunked() on any data, for any server.max-request-size and any number of request
-    body bytes already received (`bytes_in`, with `bytes_in` + the data present fitting off_t): the
-    413 test, `te_chunked += 2`, the in-memory decision in the overflow-free form
-    `te_chunked <= 64*1024 - bytes_in`, the transfer `bytes_in += len` and `te_chunked -= len`
-    never leave off_t; the remaining-length counter stays a non-negative off_t and no more bytes
-    are moved than were supplied.  Same for one call of http_chunk_decode_append_data(). -/
-theorem c12_chunk_step_no_overflow (msKB : Nat) (bytesIn : Int) (data : Bytes) (hms : msKB ≤ u32Max)
+/-- PARTIAL (superseded by `c12_h1_chunked_histories` / `c12_gw_dechunk_histories`, kept because the
+    bytes-received counter is an arbitrary parameter here): the FIRST chunk-header step of one call that
+    starts with `te_chunked = 0`.  `CkGood` accepts `.unmodelled`, which `ck1`/`ck2` return as soon as a
+    chunk completes inside the call — this theorem says nothing about those inputs. -/
+theorem c12_chunk_first_step_no_overflow_partial (msKB : Nat) (bytesIn : Int) (data : Bytes) (hms : msKB ≤ u32Max)
     (hin0 : 0 ≤ bytesIn) (hin : bytesIn + data.length ≤ i64Max) :
     CkGood data.length (ck1 msKB bytesIn data) ∧ CkGood data.length (ck2 data) := by
   rw [u32Max_eq] at hms
   rw [i64Max_eq] at hin
   exact ⟨ck1_good msKB bytesIn data hms hin0 hin, ck2_good data (by omega)⟩
+
+/-- **h1_chunked(), whole calls, every history.**  For every server.max-request-size, every
+    max-request-field-size and EVERY sequence of reads whose total length fits off_t (each read is
+    appended to the read queue and h1_chunked() is called, resuming with the carried `te_chunked`,
+    `bytes_in` and unconsumed bytes; any number of chunks, CRLFs, the last chunk and the trailer scan
+    inside one call): no step leaves off_t (`te<<4|u`, `max_request_size<<10`, the 413 test, `te+2`,
+    `te-2`, `64*1024 - bytes_in`, `bytes_in += len`, `te -= len`: never `ub`, the loop terminates); after
+    every call `0 ≤ te_chunked ≤ 2^63-31`, `te_chunked ≠ 1`, `bytes_in ≥ 0`, bytes are conserved
+    (`bytes_in` + unconsumed ≤ received); and whenever a call returns without completing the body the
+    read queue keeps FEWER than max(1024, max-request-field-size) bytes — the partial chunk-size line /
+    trailer accumulator cannot grow without bound, whatever the read sizes. -/
+theorem c12_h1_chunked_histories (msKB maxField : Nat) (hms : msKB ≤ u32Max) (reads : List Bytes)
+    (htot : (((reads.map List.length).sum : Nat) : Int) ≤ i64Max) :
+    let r := h1Run msKB maxField reads
+    (r.fail = none ∨ ∃ e : Nat, r.fail = some ("err " ++ toString e)) ∧
+    0 ≤ r.st.te ∧ r.st.te ≤ 9223372036854775777 ∧ r.st.te ≠ 1 ∧ 0 ≤ r.st.bytesIn ∧
+    r.st.bytesIn + r.st.q.length ≤ ((reads.map List.length).sum : Nat) ∧
+    r.maxrest < Nat.max 1024 maxField ∧ (r.st.done = false → r.st.q.length < Nat.max 1024 maxField) := by
+  rw [u32Max_eq] at hms
+  rw [i64Max_eq] at htot
+  have h0 : H1RunInv 0 maxField ({} : H1Run) :=
+    ⟨⟨by simp, by simp [gwTeMax], by simp, by simp, by simp⟩, (by intro _; simp; exact Nat.lt_of_lt_of_le (by decide) (Nat.le_max_left 1024 maxField)),
+     (by simp; exact Nat.lt_of_lt_of_le (by decide) (Nat.le_max_left 1024 maxField)), Or.inl rfl⟩
+  have := h1Run_inv msKB maxField hms reads {} 0 (by omega) h0
+  simp only [Int.zero_add] at this
+  have hte := this.st.teMax
+  unfold gwTeMax at hte
+  exact ⟨this.noUb, this.st.te0, hte, this.st.te1, this.st.in0, this.st.sum, this.maxrest, this.wait⟩
+
+/-- one resumed call from ANY carried state that satisfies the invariant (arbitrary `te_chunked`,
+    `bytes_in`, leftover bytes): never `ub`, and the invariant and the wait bound hold again -/
+theorem c12_h1_chunked_call (budget : Int) (hbud : budget ≤ i64Max) (msKB maxField : Nat) (hms : msKB ≤ u32Max)
+    (st : H1St) (m : Bytes) (hi : H1Inv (budget - m.length) st) (hw : H1Wait maxField st) :
+    (∀ w, h1Call msKB maxField st m ≠ .ub w) ∧
+    (∀ st', h1Call msKB maxField st m = .ok st' → H1Inv budget st' ∧ H1Wait maxField st') := by
+  rw [u32Max_eq] at hms; rw [i64Max_eq] at hbud
+  exact h1Call_ok budget hbud msKB maxField hms st m hi hw
+
+/-- **http_chunk_decode_append_data(), whole calls, every history.**  For every
+    max-request-field-size and EVERY sequence of reads from a backend (no assumption on their sizes):
+    no step leaves its type (`te<<4|u`, `te+2`, the uint32 difference `1024 - hlen` of the
+    partial-line bound, `mem += hsz`: the run never fails with `ub`, the loop terminates);
+    `0 ≤ gw_chunked ≤ 2^63-31` after every read; the header buffer `gw_dechunk->b` never holds more than
+    1024 bytes of an unterminated chunk-size line (`maxp`), never more than
+    max(1024, max-request-field-size)+4 bytes at all (`maxh`: last-chunk line + trailers + the appended
+    CRLFs), and at most max(1024, max-request-field-size) while the body is incomplete. -/
+theorem c12_gw_dechunk_histories (maxField : Nat) (reads : List Bytes) :
+    let r := gwRun maxField reads
+    (r.fail = none ∨ r.fail = some "err") ∧ 0 ≤ r.st.te ∧ r.st.te ≤ 9223372036854775777 ∧
+    r.maxp ≤ 1024 ∧ r.maxh ≤ Nat.max 1024 maxField + 4 ∧
+    (r.st.done = false → r.st.h.length ≤ Nat.max 1024 maxField) ∧
+    (noLf r.st.h = true → r.st.h.length ≤ 1024) := by
+  have h := gwRun_inv maxField reads
+  have hte := h.st.teMax
+  unfold gwTeMax at hte
+  exact ⟨h.noUb, h.st.te0, hte, h.maxp, h.maxh, h.st.live, h.st.partialLine⟩
+
+/-- the same accumulator bound over the byte-at-a-time automaton of C01 (`ckFeed`, validated against
+    h1_chunked for all segmentations): in every reachable state the bytes kept unconsumed (partial
+    chunk-size line, one CR, last-chunk line + trailers) are fewer than max(1024, max-request-field-size) -/
+theorem c12_h1_chunk_buffer_bounded_c01 (cfg : CkCfg) (bs : Bytes) :
+    ckBuffered (ckFeed cfg {} bs).mode < Nat.max 1024 cfg.maxField :=
+  ckFeed_buffered cfg bs {} (by simp [ckBuffered]; exact Nat.lt_of_lt_of_le (by decide) (Nat.le_max_left 1024 cfg.maxField))
 
 /-- The sum as the source evaluated it before the repair (`dst_cq->bytes_in + te_chunked`, h1.c:725)
     DOES leave off_t on values the accepting path produces: 31 body bytes received, then a chunk
@@ -123,9 +188,9 @@ theorem c12_chunk_body_sum_as_written_overflows :
     inI64 (ck1SumAsWritten 31 9223372036854775777) = false := by
   constructor <;> decide
 
-example : ckHex Extracted.ckGuardH1 (ofString "7fffffffffffffdf\r\n") 0 0
+example : Arith.ckHex Extracted.ckGuardH1 (ofString "7fffffffffffffdf\r\n") 0 0
     = .ok 9223372036854775775 16 [cr, lf] := by decide
-example : ckHex Extracted.ckGuardH1 (ofString "7fffffffffffffe0\r\n") 0 0 = .tooLarge := by decide
+example : Arith.ckHex Extracted.ckGuardH1 (ofString "7fffffffffffffe0\r\n") 0 0 = .tooLarge := by decide
 example : ck1 1 0 (ofString "401\r\nab") = .err 413 := by decide
 example : ck2 (ofString "5;x\r\nab") = .ok 5 2 0 false := by decide
 
@@ -167,12 +232,53 @@ theorem c12_hoff_bounds (init0 : Nat) (block : Bytes) (h0 : init0 < Extracted.ho
       · rw [if_neg (by omega)] at hchk; omega
       · rw [if_pos hz] at hchk; omega
 
-/-- the callers' arrays have the dimension of the prototype, the scan stops (return 0) exactly at the
-    line count the HTTP/1 caller answers with 431, and both callers' byte limits are at most USHRT_MAX -/
+/-- all FOUR callers of http_header_parse_hoff() (h1_recv_headers, http_response_parse_headers,
+    h2_send_headers_block, h2_send_end_stream_trailers — the latter three parse backend-controlled
+    bytes): their arrays have the dimension of the prototype; the scan stops (return 0) exactly at the
+    line count the HTTP/1 caller answers with 431 and below the dimension; every caller's byte limit is at
+    most USHRT_MAX — `MAX_HTTP_RESPONSE_FIELD_SIZE`, the literal `rc > USHRT_MAX` of the two HTTP/2
+    callers (whose presence the extractor checks), and server.max-request-field-size, which configfile.c
+    reads through a 16-bit `unsigned short` config value — so the hypothesis `limit ≤ u16Max` of
+    `c12_hoff_bounds` is met by every caller. -/
 theorem c12_hoff_callers :
     Extracted.hoffDimH1 = Extracted.hoffDim ∧ Extracted.hoffDimResp = Extracted.hoffDim ∧
+    Extracted.hoffDimH2Hdr = Extracted.hoffDim ∧ Extracted.hoffDimH2Trl = Extracted.hoffDim ∧
     Extracted.hoff431 ≤ Extracted.hoffBreak ∧ Extracted.hoffBreak < Extracted.hoffDim ∧
-    Extracted.maxRespFieldSize ≤ u16Max := by decide
+    Extracted.maxRespFieldSize ≤ u16Max ∧ Extracted.ushrtMax ≤ u16Max ∧
+    2 ^ Extracted.maxRequestFieldSizeBits - 1 ≤ u16Max := by decide
+
+/-- **Header accumulation across reads is bounded.**  Both kinds of caller keep the bytes received so far
+    and call http_header_parse_hoff() on all of them after every read (the function has no state).  For
+    every accumulated block (< 4 GiB) and every limit: the decision never involves `ub`, and whenever it
+    is "wait for more bytes" the block is no longer than the limit — so, over every sequence of reads,
+    the header buffer is at most `limit` bytes before the read that completes or rejects it. -/
+theorem c12_header_wait_bounded (limit : Nat) (lineCheck : Bool) (block : Bytes) (hlen : block.length ≤ u32Max) :
+    (∀ w, headDecision limit lineCheck block ≠ .ub w) ∧
+    (headDecision limit lineCheck block = .ok .wait → block.length ≤ limit) ∧
+    (∀ n, headDecision limit lineCheck block = .ok (.complete n) → n ≤ limit ∧ n ≤ block.length ∧ n ≠ 0) := by
+  obtain ⟨ret, st, he, _, _, hret, _, _⟩ := c12_hoff_bounds 1 block (by decide) hlen
+  unfold headDecision
+  rw [he]; simp only
+  by_cases hc : (decide ((if ret ≠ 0 then ret else block.length) > limit) ||
+      (lineCheck && decide (st.cnt ≥ Extracted.hoff431))) = true
+  · rw [if_pos hc]
+    exact ⟨fun _ h => (nomatch h), fun h => (nomatch h), fun _ h => (nomatch h)⟩
+  · rw [if_neg hc]
+    simp only [Bool.or_eq_true, decide_eq_true_eq, not_or, Nat.not_lt] at hc
+    have hc1 := hc.1
+    by_cases hz : ret = 0
+    · rw [if_pos hz]
+      refine ⟨fun _ h => (nomatch h), ?_, fun _ h => (nomatch h)⟩
+      intro _
+      rw [if_neg (by omega)] at hc1
+      exact hc1
+    · rw [if_neg hz]
+      refine ⟨fun _ h => (nomatch h), fun h => (nomatch h), ?_⟩
+      intro n h
+      simp only [R.ok.injEq, HeadDecision.complete.injEq] at h
+      subst h
+      rw [if_pos hz] at hc1
+      exact ⟨hc1, hret, hz⟩
 
 example : hoffScan 1 (ofString "GET / HTTP/1.1\r\nHost: a\r\n\r\n")
     = .ok (27, { cnt := 3, hlen := 27, writes := [(2, 16), (3, 25), (4, 27)] }) := by decide
@@ -192,7 +298,7 @@ theorem c12_buffer_growth (b : Buf) (n : Nat) (hwf : b.used ≤ b.size) (hsz : b
     (∃ b', extend b n = .ok b' ∧ b'.used = bufLen b + n + 1 ∧ b'.used ≤ b'.size ∧ b'.size ≤ u32Max) := by
   rw [u32Max_eq]
   constructor
-  · obtain ⟨b', h1, h2, h3, h4, h5, _⟩ := prepareAppend_spec b n hwf hsz hn
+  · obtain ⟨b', h1, h2, h3, h4, h5, _, _⟩ := prepareAppend_spec b n hwf hsz hn
     refine ⟨b', h1, h2, h3, h4, h5, ?_⟩
     intro m hm
     have := commit_spec b' m (by omega)
@@ -205,48 +311,88 @@ theorem c12_buffer_growth (b : Buf) (n : Nat) (hwf : b.used ≤ b.size) (hsz : b
 theorem c12_buffer_realloc (b : Buf) (len : Nat) (h : len ≤ 4294967231) :
     ∃ sz, bufRealloc b len = .ok { b with size := sz } ∧ len + 1 ≤ sz ∧ sz ≤ u32Max ∧
       bufReallocSz len = some sz := by
-  obtain ⟨sz, h1, h2, h3⟩ := bufReallocSz_spec len h
+  obtain ⟨sz, h1, h2, h3, _⟩ := bufReallocSz_spec len h
   refine ⟨sz, ?_, h2, by rw [u32Max_eq]; exact h3, h1⟩
   simp only [bufRealloc, h1, wrap32, u32Max_eq]
   rw [Nat.mod_eq_of_lt (by omega)]
 
-/-- the bound is tight: one byte more and the 32-bit `size` field records 1 for a 4 GiB allocation
-    (harmless for memory safety: the recorded size is smaller than the allocation; unreachable from
-    untrusted input, whose buffers are bounded by the request / frame / read limits) -/
+/-- the hypotheses are needed: one byte beyond the length bound the 32-bit `size` field records 1 for a
+    4 GiB allocation, and a buffer beyond 2 GiB records a size smaller than `used` at its next growth
+    (the doubling request passes 2^32).  Both are outside what `c12_buffer_closure` shows reachable. -/
 theorem c12_buffer_realloc_bound_tight :
-    bufRealloc ⟨0, 0⟩ 4294967232 = .ok ⟨0, 1⟩ ∧ bufReallocSz 4294967232 = some 4294967297 := by
-  constructor <;> decide
+    bufRealloc ⟨0, 0⟩ 4294967232 = .ok ⟨0, 1⟩ ∧ bufReallocSz 4294967232 = some 4294967297 ∧
+    prepareAppend ⟨2147483650, 2147483651⟩ 10 = .ok ⟨2147483650, 65⟩ := by
+  refine ⟨by decide, by decide, by decide⟩
 
-/-- ck_realloc_u32(): when the assertion passes, `n + x` fits uint32_t and `(n+x)*elt_sz`, the size
-    passed to realloc(), does not wrap size_t -/
-theorem c12_ck_realloc_u32 (n x elt bytes : Nat) (_helt : 0 < elt) (h : ckReallocU32 n x elt = some bytes) :
-    n + x ≤ u32Max ∧ bytes = (n + x) * elt ∧ bytes ≤ uszMax := by
-  unfold ckReallocU32 at h
-  split at h
-  · rename_i hc
-    simp only [Bool.and_eq_true, decide_eq_true_eq] at hc
-    simp only [Option.some.injEq] at h
-    refine ⟨by omega, h.symm, ?_⟩
-    rw [← h]
-    calc (n + x) * elt ≤ (uszMax / elt) * elt := Nat.mul_le_mul_right _ hc.2
-      _ ≤ uszMax := Nat.div_mul_le_self _ _
-  · simp at h
+/-- **Closure under a length limit** (discharges the size hypotheses of `c12_buffer_growth` from what
+    callers actually control).  For every limit `L ≤ 2^28` and EVERY sequence of buffer operations
+    (prepare_append / commit / extend = append / prepare_copy = copy / truncate / clear) on a fresh buffer
+    in which each operation keeps the string length at most `L` and respects the API contract (commit
+    only what was prepared, truncate within the string): no operation aborts, and after every prefix
+    `used ≤ size`, `size ≤ 6·L + 300 < 2^31−32`, length ≤ L — i.e. the window in which
+    `c12_buffer_growth` holds is never left.  The request / response / frame paths append into buffers
+    whose length is capped far below 2^28 (request fields ≤ 65535, HPACK scratch 64 KiB, frames ≤ 16 KiB,
+    reads ≤ 256 KiB: those caps are NOT derived here, they are the callers' limits). -/
+theorem c12_buffer_closure (L : Nat) (hL : L ≤ 268435456) (ops : List BufOp) (hl : LegalRun L ⟨0, 0⟩ ops) :
+    ∃ b, bufRun ⟨0, 0⟩ ops = .ok b ∧ b.used ≤ b.size ∧ b.size ≤ 6 * L + 300 ∧ bufLen b ≤ L ∧
+      b.size ≤ 2147483616 := by
+  obtain ⟨b, h1, h2⟩ := bufRun_inv L hL ops ⟨0, 0⟩ ⟨by simp, by simp, by simp [bufLen]⟩ hl
+  exact ⟨b, h1, h2.wf, h2.size, h2.len, by have := h2.size; omega⟩
+
+/-- ck_realloc_u32() (CONDITIONAL: says when the assertion fires, not that callers never make it fire):
+    for `elt_sz > 0` the assertion passes exactly when `x` and `n + x` fit uint32_t and
+    `(n+x)*elt_sz` fits size_t, and then the size passed to realloc() is that product, un-wrapped. -/
+theorem c12_ck_realloc_u32 (n x elt : Nat) (helt : 0 < elt) :
+    (∀ bytes, ckReallocU32 n x elt = some bytes → n + x ≤ u32Max ∧ bytes = (n + x) * elt ∧ bytes ≤ uszMax) ∧
+    (ckReallocU32 n x elt = none ↔ ¬ (x ≤ u32Max ∧ n ≤ u32Max - x ∧ (n + x) * elt ≤ uszMax)) := by
+  have hiff : n + x ≤ uszMax / elt ↔ (n + x) * elt ≤ uszMax := Nat.le_div_iff_mul_le helt
+  unfold ckReallocU32
+  constructor
+  · intro bytes h
+    split at h
+    · rename_i hc
+      simp only [Bool.and_eq_true, decide_eq_true_eq] at hc
+      simp only [Option.some.injEq] at h
+      exact ⟨by omega, h.symm, by rw [← h]; exact hiff.mp hc.2⟩
+    · simp at h
+  · constructor
+    · intro h
+      split at h
+      · simp at h
+      · rename_i hc
+        simp only [Bool.and_eq_true, decide_eq_true_eq, not_and] at hc
+        intro ⟨a, b, c⟩
+        exact hc ⟨a, b⟩ (hiff.mpr c)
+    · intro h
+      split
+      · rename_i hc
+        simp only [Bool.and_eq_true, decide_eq_true_eq] at hc
+        exact absurd ⟨hc.1.1, hc.1.2, hiff.mp hc.2⟩ h
+      · rfl
 
 example : prepareAppend ⟨0, 0⟩ 10 = .ok ⟨0, 65⟩ ∧ commit ⟨0, 65⟩ 10 = .ok ⟨11, 65⟩ := by decide
 example : extend ⟨11, 65⟩ 100 = .ok ⟨111, 129⟩ := by decide
 example : ckReallocU32 4294967295 1 8 = none ∧ ckReallocU32 10 5 8 = some 120 := by decide
+example : bufRun ⟨0, 0⟩ [.prep 10, .commit 10, .extend 50, .trunc 3, .copy 100, .clear] = .ok ⟨0, 129⟩ := by decide
+example : Legal 100 ⟨61, 65⟩ (.extend 40) ∧ Legal 100 ⟨0, 65⟩ (.commit 10) := by simp [Legal, bufLen]
 
 /-! ## HTTP/2 frame, padding, priority and CONTINUATION lengths -/
 
-/-- For every HEADERS / DATA frame length, flag byte and pad length: the padding and priority checks
-    of h2_recv_headers() / h2_recv_data() never let an unsigned subtraction wrap (`alen -= 1+pad`,
-    `alen -= 5` are only reached when they are exact: never `ub`), and when the frame is accepted the
-    fragment (resp. data) plus the padding fill the frame exactly, so every byte the HPACK decoder
-    or the body copy touches lies inside the frame.
-    For h2_recv_continuation() on any buffer below 2 GiB holding a complete first frame and any
-    negotiated max frame size: no offset wraps, no header or payload is read or moved outside the
-    data present (never `ub`), and a merged HEADERS frame has total length `9 ≤ m < 65536` — below
-    the HPACK scratch buffer of 64 KiB — and does not grow the buffer. -/
+/-- HTTP/2 length arithmetic.
+    (1),(2) h2_recv_headers() / h2_recv_data(): for every frame length, flag byte and pad length the
+    subtractions `alen -= 1+pad`, `alen -= 5` are reached only when exact (never `ub`) and an accepted
+    fragment / data plus its padding fill the frame exactly.  NOTE: these two conjuncts restate the guards
+    as written in the model (the guard text is hand-copied, not extracted); their tie to the C is the
+    h2h / h2d correspondence under ASan.
+    (3) h2_recv_continuation() for every buffer below 2 GiB holding a complete first frame, every
+    frame-size limit: no offset wraps, no header or payload is read or moved outside the data present
+    (never `ub`: the scan validates exactly the frames the merge later walks), a merged HEADERS frame has
+    total encoded length `9 ≤ m < 65536` and the buffer does not grow; and whenever the function decides to
+    WAIT for more data the buffer holds fewer bytes than `need`, with `need ≤ 65536+8` (or the first
+    frame's own end + 9): since it re-scans everything received so far, this bounds the bytes accumulated
+    for one HEADERS+CONTINUATION sequence over every sequence of reads.
+    (4) the limit on received frames is the advertised default (16384) and lies in the legal range.
+    (The bound on the DECODED header size is lshpack's own output check — not modelled here.) -/
 theorem c12_h2_sizes :
     (∀ flen flags pad, (∀ w, h2HeadersLen flen flags pad ≠ .ub w) ∧
       ∀ off alen, h2HeadersLen flen flags pad = .ok off alen → off + alen + padOf flags pad = flen) ∧
@@ -254,43 +400,38 @@ theorem c12_h2_sizes :
       ∀ off alen, h2DataLen len flags pad = .ok off alen → off + alen + padOf flags pad = len) ∧
     (∀ fsize buf, 9 + u24 buf 0 ≤ buf.length → buf.length ≤ 2147483648 →
       (∀ w, h2Cont fsize buf ≠ .ub w) ∧
-      ∀ m out calm, h2Cont fsize buf = .merged m out calm →
+      (∀ m out calm, h2Cont fsize buf = .merged m out calm →
         9 ≤ m ∧ m < Extracted.h2ContCap ∧ m ≤ out.length ∧ out.length ≤ buf.length) ∧
-    (Extracted.h2ContCap ≤ Extracted.h2TmpBufSize + 1 ∧ Extracted.h2FrameSizeDefault ≤ Extracted.h2FrameSizeMax ∧
-      Extracted.h2FrameSizeMin ≤ Extracted.h2FrameSizeDefault ∧ Extracted.h2FrameSizeMax < 16777216) :=
+      (∀ need calm, h2Cont fsize buf = .incomplete need calm →
+        buf.length < need ∧ (need ≤ Extracted.h2ContCap + 8 ∨ need ≤ 9 + u24 buf 0 + 9))) ∧
+    (Extracted.h2RecvFrameMax = Extracted.h2FrameSizeDefault ∧ Extracted.h2FrameSizeMin ≤ Extracted.h2RecvFrameMax ∧
+      Extracted.h2RecvFrameMax ≤ Extracted.h2FrameSizeMax ∧ Extracted.h2FrameSizeMax < 16777216 ∧
+      9 + Extracted.h2RecvFrameMax < Extracted.h2ContCap) :=
   ⟨h2HeadersLen_spec, h2DataLen_spec, h2Cont_spec, by decide⟩
 
 example : h2HeadersLen 10 (flagPadded ||| flagPriority ||| flagEndHeaders) 3 = .ok 6 1 := by decide
 example : h2HeadersLen 3 flagPadded 3 = .protoErr := by decide
 example : h2DataLen 5 flagPadded 4 = .ok 1 0 ∧ h2DataLen 5 flagPadded 5 = .protoErr := by decide
 example : h2Cont 16384 [0, 0, 2, 1, 0, 0, 0, 0, 1, 0x82, 0x86, 0, 0, 1, 9, 4, 0, 0, 0, 1, 0x84]
-    = .merged 12 [0, 0, 3, 1, 0, 0, 0, 0, 1, 0x82, 0x86, 0x84] false := by decide +kernel
+    = .merged 12 [0, 0, 3, 1, 4, 0, 0, 0, 1, 0x82, 0x86, 0x84] false := by decide +kernel
 
 /-! ## http_range.c -/
 
-/-- For every Range header text and every representation length `0 < len ≤ LLONG_MAX`: the values
-    http_range_parse_next() computes for a suffix range (`-n`, `len + n`, `len - 1`), the
-    `ranges[n-2]-80` of http_range_parse() and the `ranges[j]-80` / `b-80` of
-    http_range_coalesce_unsorted() stay inside off_t on every state the parser can reach (the
-    checked forms equal the unchecked model of Model/Range.lean), every range the parser returns
-    satisfies `0 ≤ first ≤ last < len`, and it never holds more than RMAX ranges, so every
-    `ranges[n]`, `ranges[n+1]` access is inside `off_t ranges[RMAX*2]`. -/
-theorem c12_range_arith (len : Int) (hlen : 0 < len) (hmax : len ≤ Range.LLONG_MAX) :
-    (∀ n, n < 0 → Range.LLONG_MIN ≤ n → n ≠ Range.LLONG_MIN →
-      rangeSuffixChk n len = .ok (if len > -n then len + n else 0, len - 1)) ∧
-    (∀ st rg, Range.InB len rg → rangeStepChk st rg = .ok (Range.parseStep st rg)) ∧
-    (∀ b e r, Range.InB len (b, e) → Range.InB len r → rangeOverlapsChk b e r = .ok (Range.overlaps b e r)) ∧
-    (∀ s, Range.AllInB len (Range.parse s len) ∧ (Range.parse s len).length ≤ Range.RMAX) ∧
-    (∀ st rg, st.rs.length < st.lim → st.lim ≤ Range.RMAX →
-      (Range.parseStep st rg).1.rs.length ≤ (Range.parseStep st rg).1.lim ∧
-      (Range.parseStep st rg).1.lim ≤ Range.RMAX) :=
-  ⟨fun n h1 h2 h3 => rangeSuffixChk_spec n len hlen hmax h1 h2 h3,
-   fun st rg h => rangeStepChk_spec len hmax st rg h,
-   fun b e r h1 h2 => rangeOverlapsChk_spec len hmax b e r h1 h2,
-   fun s => ⟨Range.parse_inB s len hlen, parse_len s len⟩,
-   fun st rg h1 h2 => parseStep_len_lim st rg h1 h2⟩
+/-- **http_range_parse(), composed.**  For EVERY Range header text and every representation length
+    `0 < len ≤ LLONG_MAX`, the whole parser in checked form (Model/ArithRange.lean: strtoll clamping,
+    http_range_parse_next incl. the suffix form with its `n != LLONG_MIN` short-circuit, the do-while loop
+    with the sorted-coalescing and the unsorted limit, http_range_coalesce_unsorted with restarts) returns
+    `ok`: no off_t value leaves int64 (`-n`, `len+n`, `len-1`, `ranges[n-2]-80`, `ranges[j]-80`, `b-80`) and
+    no `ranges[]` access is outside `off_t ranges[RMAX*2]`; every returned range satisfies
+    `0 ≤ first ≤ last < len`; at most RMAX ranges are returned. -/
+theorem c12_range_arith (s : Bytes) (len : Int) (hlen : 0 < len) (hmax : len ≤ Rg.llMax) :
+    ∃ rs, Rg.parse s len = .ok rs ∧ (∀ r ∈ rs, 0 ≤ r.1 ∧ r.1 ≤ r.2 ∧ r.2 < len) ∧ rs.length ≤ Rg.rmax :=
+  Rg.parse_spec s len hlen hmax
 
-example : rangeSuffixChk (-5) 1000 = .ok (995, 999) := by decide
-example : Range.parse (ofString "0-1,500-600") 1000 = [(0, 1), (500, 600)] := by decide
+example : Rg.parse (ofString "0-1,500-600,-5") 1000 = .ok [(0, 1), (500, 600), (995, 999)] := by decide
+example : Rg.parse (ofString "-9223372036854775808") 1000 = .ok [(0, 999)] := by decide
+example : Rg.parse (ofString "5-9223372036854775807,2-3") 9223372036854775807 =
+    .ok [(2, 9223372036854775806)] := by decide
+example : Rg.parse (ofString "500-,2-3") 1000 = .ok [(500, 999), (2, 3)] := by decide
 
 end LtVerif.C12
